@@ -1,4 +1,5 @@
 import IofloModel.Model.FloProg
+import IofloModel.Model.FloWf
 import IofloModel.Drv.Proto
 /-!
 driver for the framer interpreter (engine `flo`).  One request = one whole program + run; stateless.
@@ -24,8 +25,8 @@ Reply: records joined by `|`:
   `S <k> <framer>*`              state after tick k, per framer `i:status:active:actives:done:main:elapsed:recurred`
   `V <values>`                   store values after tick k
   `Z <framer>*`, `V …`           after the final ABORT of everything still ready
-  `G overlap=<b> reenter=<b> shared=<b> left=<b> dbl=<b>`  ghost flags of the run and `sharedAux` of the program (region
-                                 predicates of the known findings)
+  `G overlap=<b> reenter=<b> shared=<b> left=<b> dbl=<b> wf=<b>`  ghost flags of the run, `sharedAux` of the program
+                                 (region predicates of the known findings) and `wfCheck` (Model/FloWf.lean)
   `ERR build <kind>` / `ERR run <kind>`
 -/
 namespace Ioflo.Drv.Flo
@@ -264,7 +265,7 @@ def flush (acts : Array CAct) (s : St World) : List String × St World :=
   (showEvents acts s.trace.reverse, { s with trace := [] })
 
 def runLoop (P : Prog) (sem : Sem World) (lo : Ops World) (acts : Array CAct) (nfr nsh period : Nat)
-    (shared : Bool) :
+    (shared wf : Bool) :
     Nat → Nat → Sked → St World → List String → List String
   | 0, _, _, _, out => out ++ ["ERR run ticks"]
   | fuel + 1, k, sk, s, out =>
@@ -281,8 +282,8 @@ def runLoop (P : Prog) (sem : Sem World) (lo : Ops World) (acts : Array CAct) (n
           out ++ evs ++ snapshot "Z" nfr nsh s'' ++
             ["G overlap=" ++ (if s''.overlap then "1" else "0") ++ " reenter=" ++ (if s''.reenter then "1" else "0")
               ++ " shared=" ++ (if shared then "1" else "0") ++ " left=" ++ (if s''.left then "1" else "0")
-              ++ " dbl=" ++ (if s''.dbl then "1" else "0")]
-      else runLoop P sem lo acts nfr nsh period shared fuel (k + 1) sk' { s' with now := s'.now + period } out
+              ++ " dbl=" ++ (if s''.dbl then "1" else "0") ++ " wf=" ++ (if wf then "1" else "0")]
+      else runLoop P sem lo acts nfr nsh period shared wf fuel (k + 1) sk' { s' with now := s'.now + period } out
 
 def showResolveErr : Outline.ResolveErr → String
   | .badOver => "badOver" | .loop => "loop" | .badUnder => "badUnder"
@@ -300,6 +301,7 @@ def execute (r : Request) (acts : Array CAct) (needs : Array NeedC) : String :=
     let sk : Sked := { ready := r.ready.map (·.1) }
     if r.ticks = 0 then "ERR run ticks" else
     "|".intercalate (runLoop P sem lo acts framers.length r.shares.length r.period (sharedAux frames)
+      (wfCheck frames framers)
       r.ticks 0 sk s0 [])
 
 def step (_ : Unit) (line : String) : Unit × String :=
